@@ -32,12 +32,16 @@ def cases(tier, seed):
         for v in ys6:
             for lab in LABELS:
                 yield {"n": 6, "y": list(v), "labels": lab, "full": True}
+        for v in ys6:
+            yield {"n": 6, "y": list(v), "labels": "01", "full": True, "inexact": True}
         for v in ys8:
             yield {"n": 8, "y": list(v), "labels": "01", "full": True}
             yield {"n": 8, "y": list(v), "labels": "ab", "full": False}
     else:
         for i, v in enumerate(ys):
             yield {"n": 6, "y": list(v), "labels": "01", "full": True}
+            if (i + seed) % 4 == 0:
+                yield {"n": 6, "y": list(v), "labels": "01", "full": False, "inexact": True}
             lab = ("m11", "ab", "fl")[(i + seed) % 3]
             yield {"n": 6, "y": list(v), "labels": lab, "full": False}
 
@@ -76,10 +80,12 @@ def run_case(case):
 
     n = case["n"]
     X = numpy.array(DESIGN6 if n == 6 else DESIGN8)
+    if case.get("inexact"):
+        X = X / 3.0 + 0.1        # coordinates that are not float32-representable
     lab = LABELS[case["labels"]]
     y = numpy.array([lab[v] for v in case["y"]])
     g = numpy.linspace(-0.5, 4.0, 5)
-    probes = numpy.vstack([X, numpy.array(list(itertools.product(g, g)))])
+    probes = numpy.vstack([X, numpy.array(list(itertools.product(g, g))) / (3.0 if case.get("inexact") else 1.0)])
     viol = []
     sigs = set()
     ntriv = 0
@@ -197,6 +203,19 @@ def run_case(case):
                     bad("decision_path and predict_proba route a row differently (same batch)", "node %d rows %r: %r vs %r %s" % (
                         t, rows_t[:4], pt[:2].tolist(), proba[rows_t][:2].tolist(), desc))
                     break
+        # the same batch as a DataFrame and as a list (values that are not float32-representable): the public methods
+        # must route exactly as they do for the ndarray
+        if case.get("inexact"):
+            import pandas
+            for kind_, conv in (("DataFrame", lambda a: pandas.DataFrame(a, columns=["f0", "f1"])), ("list", lambda a: a.tolist())):
+                try:
+                    path2 = numpy.asarray(m.decision_path(conv(probes)).todense())
+                    if not numpy.array_equal(path2, path):
+                        bad("decision_path of a %s differs from the one of the same values as ndarray" % kind_, desc)
+                except (AttributeError, TypeError):
+                    pass     # input type not supported by that method: not this property's business
+                except Exception as ex:
+                    bad("decision_path raises %s on a %s" % (type(ex).__name__, kind_), "%s %s" % (str(ex)[:150], desc))
         # batch vs single rows for the public methods
         sel = [i for i in range(0, len(probes), 5) if i not in ties]
         p1 = numpy.vstack([m.predict_proba(probes[i:i + 1]) for i in sel]) if sel else numpy.zeros((0, 2))
